@@ -905,6 +905,7 @@ struct MatchingMF {
       initial.clear();
       globalRelabel(g, source, sink, numNodes, initial);
       shouldGlobalRelabel = false;
+      counter             = 0;
       t.stop();
     }
 
